@@ -324,7 +324,7 @@ int main(int argc, char** argv) {
         auto run_growth = [&](size_t table, Result& R) {
             struct { size_t table; } t{table};
                 // growth: N distinct values then each re-added (deque chunk boundaries, rehash) on three tables with cheap distinct values
-                set_note("growth table=" + std::to_string(t.table)); size_t N = T ? 20000 : 5000; CdnsBlock b; std::string bad;
+                set_note("growth=1;table=" + std::to_string(t.table)); size_t N = T ? 20000 : 5000; CdnsBlock b; std::string bad;
                 for (size_t round = 0; round < 2 && bad.empty(); round++) for (size_t i = 0; i < N; i++) {
                     index_t got = 0;
                     switch (t.table) {
@@ -343,7 +343,7 @@ int main(int argc, char** argv) {
         };
         auto run_hash = [&](Result& R) {
                 // hash / equality over the signature pool (base, single-member and pair-of-member variants) and the other keyed types
-                set_note("hash-equality"); auto sp = sig_pool(true); uint64_t n = 0;
+                set_note("hash=1"); auto sp = sig_pool(true); uint64_t n = 0;
                 for (size_t i = 0; i < sp.size(); i++) for (size_t j = 0; j < sp.size(); j++) { bool eq = sp[i] == sp[j]; bool same = canon(sp[i]) == canon(sp[j]); n++;
                     if (eq != same) R.violation("tables|equality|qr_sig", "operator== says " + std::to_string(eq) + " for " + canon(sp[i]) + " vs " + canon(sp[j]), "hash=1");
                     if (eq && hash_value(sp[i]) != hash_value(sp[j])) R.violation("tables|hash|qr_sig", "equal signatures hash differently", "hash=1"); }
